@@ -104,7 +104,7 @@ PROPS["C07"] = {
              "Oracle = during elapsed < D every request has its own upstream request pending at the next quiescent point (never queued, never a hit); at elapsed >= D+1 exactly one probes and the others wait. "
              "Non-trivial = >=2 passes and >=1 probe after the period."),
     "assumptions": _SIM_ASSUME,
-    "jobs": [_sim("TestC07", 1500, 40000)],
+    "jobs": [_sim("TestC07", 1500, 40000), _sim("TestC07Store", 400, 15000, qshards=8)],
 }
 PROPS["C10"] = {
     "level": "fault_enumeration",
